@@ -479,6 +479,17 @@ def real_path(wire: Wire, specs, layout, msg_type, flags):
         d = hist_diff(r.history, h2, 'history')
         if d:
             return ('record-differs', 'BoboHistory.from_json_str(to_json_str()) differs: ' + d), obs
+    # the same message delivered a second time after the RECEIVER's consumer changed, in place, data of the events it was
+    # given the first time (unit conversion, enrichment): every delivery is rebuilt from the wire, not from objects handed out
+    # earlier
+    if any(mutate_in_place(g.history) for k in MSG_KEYS for g in incoming[k]):
+        again = wire.rx._incoming_from_json(js)
+        for k, ixs in zip(MSG_KEYS, layout):
+            for pos, (i, g) in enumerate(zip(ixs, again[k])):
+                d = run_diff(runs[i], g, f'second-delivery {k}[{pos}]')
+                if d:
+                    return ('record-differs', 'the same message delivered again after the receiver changed data of the first delivery '
+                                              'in place is not the record sent: ' + d), obs
     # the same records once more AFTER their owner changed event data in place (one reading dict reused by a sensor loop, a
     # live status list): what goes on the wire now is the state as it is now, not a text remembered from the first time
     changed = [r for r in runs if mutate_in_place(r.history)]
